@@ -167,6 +167,12 @@ class _navel_gaze(ContractBase):
         return {'at-rest-in-running': And(c.cur.f(TR, s) == ACTIVE, c.cur.f('FSM.state', s) == FSMSTATE.const('running')),
                 'fires-run': And(n == 1, at(0) == atom('running_trigger'))}
 
+    def ensures_on_raise(c):
+        # the run trigger may already have been accepted while introspection was outstanding: the step's own trigger is then
+        # rejected, but the step is over all the same - the machine must be at rest where it is, not stuck `entering`
+        s = c['self']
+        return {'step-over-even-when-its-trigger-is-rejected': And(c.cur.f(TR, s) == ACTIVE, c.cur.f('FSM.state', s) == c.old.f('FSM.state', s))}
+
 
 W.declare_global('dawgie.pl.farm.insights', ATOM)
 
@@ -365,3 +371,14 @@ for _k in (navel_gaze, _navel_gaze, archive, _archive_done, load, load_done, rel
     _with_log(_k)
 load_done.requires = staticmethod(lambda c: dict(fresh_ghost(c)))
 _navel_gaze.requires = staticmethod(lambda c: dict(fresh_ghost(c)))
+
+
+# a completion callback whose follow-up trigger is rejected (the machine moved on meanwhile) has still ended its step:
+# the guard must be back to `active`, whatever the trigger did
+def _guard_released(c):
+    return {'guard-released-even-when-the-follow-up-trigger-is-rejected': c.cur.f(TR, c['self']) == ACTIVE}
+
+
+for _k in (load_done, reload_done):
+    if getattr(_k, 'ensures_on_raise', None) is None:
+        _k.ensures_on_raise = staticmethod(_guard_released)
